@@ -217,6 +217,9 @@ var c14Lexemes = []string{
 	"'s'", "\"t\"", "'it\\'s'", "'\\x41\\u00e9'",
 	// hostile lexemes
 	"#", "\\", "'u", "1a", "1_", "1e", "0x1", "@", "\x80", "e1", "..",
+	// characters that may continue an identifier but not start one (digits of other scripts, combining marks),
+	// inside a name and on their own
+	"x\u0662", "\u0662", "e\u0301", "\u0300", "a\uff11", "\uff11", "\u0633\u0639\u0631\u0662",
 }
 
 var c14Seps = []string{"", " ", "\t", "\u00a0", "\n"}
